@@ -11,7 +11,7 @@ impl crate::optimizer::OptimizerOptions {
     /// `op` ∈ {"Div","Exp"}; returns "Keep" | "Modified" | "Replace <op'> Num <f64 bits>" | "Replace <op'> Int <v>" |
     /// "Replace <op'> SameOperand 0" | "Replace Other x 0".
     #[must_use]
-    pub fn verif_sr_probe(op: &str, lit: i32, lhs_kind: &str) -> String {
+    pub fn verif_sr_probe(op: &str, lit: i32, lhs_kind: &str, lit_on_left: bool) -> String {
         let span = Span::new(Position::new(1, 1), Position::new(1, 2));
         let aop = match op {
             "Div" => ArithmeticOp::Div,
@@ -21,19 +21,20 @@ impl crate::optimizer::OptimizerOptions {
             "Mod" => ArithmeticOp::Mod,
             _ => ArithmeticOp::Add,
         };
-        let mut e: Expression = Binary::new(
-            BinaryOp::Arithmetic(aop),
-            match lhs_kind {
+        let other: Expression = match lhs_kind {
                 "Ident" => Identifier::new(Sym::ARGUMENTS, span).into(),
                 "Int" => Literal::new(LiteralKind::Int(7), span).into(),
                 "Num" => Literal::new(LiteralKind::Num(1.5), span).into(),
                 "BigInt" => Literal::new(LiteralKind::BigInt(Box::new(3.into())), span).into(),
                 "Str" => Literal::new(LiteralKind::String(Sym::ARGUMENTS), span).into(),
                 _ => Literal::new(LiteralKind::Null, span).into(),
-            },
-            Literal::new(LiteralKind::Int(lit), span).into(),
-        )
-        .into();
+            };
+        let l: Expression = Literal::new(LiteralKind::Int(lit), span).into();
+        let mut e: Expression = if lit_on_left {
+            Binary::new(BinaryOp::Arithmetic(aop), l, other).into()
+        } else {
+            Binary::new(BinaryOp::Arithmetic(aop), other, l).into()
+        };
         match StrengthReduction::reduce_expression(&mut e) {
             PassAction::Keep => "Keep".into(),
             PassAction::Modified => "Modified".into(),
@@ -57,6 +58,7 @@ impl crate::optimizer::OptimizerOptions {
                     _ => format!("Replace {name} OtherRhs 0"),
                 }
             }
+            PassAction::Replace(Expression::Unary(_)) => "Replace Unary x 0".into(),
             PassAction::Replace(_) => "Replace Other x 0".into(),
         }
     }
